@@ -1427,8 +1427,12 @@ class Arm(Robot):
         """
         curpos = self._end_effector_pos_global.copy()
         curth = self._theta.copy()
+        cur_home_local = self._base_pos_global.inv() @ self._end_effector_home
         self.initialize(new_base_pos_global, self.original_screw_list.copy(),
             self._end_effector_home_local, self.original_joint_poses_home)
+        # initialize() restores the original tool; carry the current one along
+        self._end_effector_home = self._base_pos_global @ cur_home_local
+        self._helper_determine_eef_to_last_joint()
         if stationary == False:
             self.FK(self._theta)
         else:
